@@ -259,6 +259,29 @@ func runIODiscipline(p *Program, r *Report) {
 		}
 	}
 	r.Floor("R13b", "fallible calls in the serialization closure", nChain, 36)
+	// deferred (or spawned) fallible calls: their error result is discarded by construction
+	for _, fn := range sortedFuncs(p, reach) {
+		nd := 0
+		for _, b := range fn.Blocks {
+			for _, in := range b.Instrs {
+				var cc *ssa.CallCommon
+				switch x := in.(type) {
+				case *ssa.Defer:
+					cc = x.Common()
+				case *ssa.Go:
+					cc = x.Common()
+				default:
+					continue
+				}
+				if errorResultIndex(cc.Signature()) < 0 {
+					continue
+				}
+				nd++
+				key := fmt.Sprintf("%s->defer %s#%d", p.FuncName(fn), calleeLabel(p, cc), nd)
+				r.Violate("R13b", key, posOf(p, in), "a fallible call is deferred in the (de)serialization code: its error (for instance a failed flush of buffered bytes) can never reach the caller", "in "+p.FuncName(fn))
+			}
+		}
+	}
 
 	// R13c (typed AST).
 	runCountAcc(p, r, reach)
